@@ -352,9 +352,7 @@ def _signed_area(verts):
 
 def h_annulus(kind, m):
     from regions import CircleAnnulusPixelRegion, EllipseAnnulusPixelRegion, RectangleAnnulusPixelRegion, PixCoord
-    if not m.sym:
-        return
-    _install(m)
+    _install(m, always=True)          # the stub outlines are used in replay too (exact vertex bookkeeping)
     cx, cy = m.real('cx'), m.real('cy')
     ox, oy = _origin(m)
     if kind == 'circle':
